@@ -1,0 +1,8 @@
+//go:build !verif
+
+// Package verifhook provides named yield points for the external verification harness.
+// Without the "verif" build tag every call compiles to nothing.
+package verifhook
+
+// Point is a no-op in normal builds.
+func Point(name string, args ...string) {}
